@@ -49,7 +49,7 @@ POINTS = {
     "month.long": ("Epoch.get_month", "if month in months_full"),
 }
 REQUIRED_POINTS = list(POINTS)
-REQUIRED_CLAUSES = ["jde==daycount", "get_date==input", "refuse.bad-day",
+REQUIRED_CLAUSES = ["history.views==fresh-object", "jde==daycount", "get_date==input", "refuse.bad-day",
                     "step==1.0", "mjd", "anchors", "month-name-forms"]
 
 
@@ -178,7 +178,12 @@ def case_anchors(mon):
                                      "1858-11-17 mjd": b, "2000-01-01 12h": c})
 
 
-CASES = {"year": case_year, "anchors": case_anchors}
+def _objhistory(mon, sv):
+    from vpm.props import c02 as _c02
+    _c02.case_objhistory(mon, sv)
+
+
+CASES = {"objhistory": _objhistory, "year": case_year, "anchors": case_anchors}
 
 
 def run(mon, spec):
@@ -186,6 +191,14 @@ def run(mon, spec):
         raise RuntimeError("day counter self-check failed")
     mon.begin("anchors", [])
     case_anchors(mon)
+    rng_h = random.Random(repr(sorted(spec.get('years', []))[:3]) + str(spec.get('seed', 0)))
+    # one Epoch object through option-carrying reads and every form of
+    # set(): its plain views stay those of a fresh Epoch of the same JDE
+    from vpm.props import c02 as _c02
+    for _ in range(40):
+        sv = rng_h.randrange(1 << 30)
+        mon.begin("objhistory", [sv])
+        _c02.case_objhistory(mon, sv)
     for y in spec["years"]:
         mon.begin("year", [y])
         case_year(mon, y)
